@@ -157,6 +157,12 @@ func (e *Entry) estimateSizeAndSetThreshold(threshold int64) int64 {
 }
 
 func (e *Entry) skipVlogAndSetThreshold(threshold int64) bool {
+	if e.meta&bitFinTxn > 0 {
+		// The entry that ends a transaction in the WAL carries the commit timestamp as its value,
+		// and replay parses that value. It stays in the WAL however small the value threshold is:
+		// moved to the value log, replay would stop at it and drop the transaction and all later ones.
+		return true
+	}
 	if e.valThreshold == 0 {
 		e.valThreshold = threshold
 	}
